@@ -56,7 +56,8 @@ WORKERS = {"quick": 1, "thorough": 14}
 def gen_cases(ctx):
     rng = ctx.rng
     for i in range(ctx.scale(3500, 540000)):
-        inst = gen.gen_instance(rng, None, max_jobs=rng.choice([2, 3, 4, 5]), max_machines=rng.choice([2, 3, 4, 5]))
+        inst = gen.gen_instance(rng, "fractional" if i % 12 == 7 else None,
+                                max_jobs=rng.choice([2, 3, 4, 5]), max_machines=rng.choice([2, 3, 4, 5]))
         yield {"kind": "views", "instance": inst, "seed": rng.randrange(2**31)}
     for i in range(ctx.scale(3500, 540000)):
         inst = gen.gen_instance(rng, rng.choice(gen.NONFLEX_CLASSES), max_jobs=rng.choice([2, 3, 4]),
@@ -209,7 +210,7 @@ def run_views(ctx, case):
         ctx.violation("c14_instance_dict_round_trip_raised", {"error": repr(e)[:200]})
     if set(d) != {"name", "duration_matrix", "machines_matrix", "metadata"}:
         ctx.violation("c14_to_dict_keys", {"keys": sorted(d)})
-    if not gen.is_flexible(inst):
+    if not gen.is_flexible(inst) and inst.get("cls") != "fractional":   # the text format holds integers
         ctx.count("taillard_round_trips")
         with tempfile.TemporaryDirectory(prefix="jsv-c14-") as td:
             fname = rng.choice(["abc.txt", "noext", "a.b.c"])
